@@ -74,8 +74,14 @@ def build(rec, pol=None):
     p = Plasma()
     p.b_field = ConstantVector3D(bvec(rec["cs"], rec["bzero"], rec.get("view", 1)))
     ne, te = ne_te(rec)
-    p.electron_distribution = Maxwellian(Constant3D(ne), Constant3D(te), ConstantVector3D(Vector3D(0, 0, 0)), 9.1093837015e-31)
-    sp = Species(el, q_, Maxwellian(Constant3D(1e18), Constant3D(float(rec["tsp"])), ConstantVector3D(Vector3D(*VEL)), el.atomic_weight * 1.66053906660e-27))
+    # the plasma has these values in a small box around the point the line is evaluated at, (0.1, 0.2, 0.3), and other values
+    # everywhere else: a quantity read at another point (coordinates mixed up, the beam point instead of the plasma point) shows
+    from raysect.core.math.function.float.function3d.autowrap import PythonFunction3D
+
+    def here(v, elsewhere):
+        return PythonFunction3D(lambda x, y, z: v if (abs(x - 0.1) < 0.04 and abs(y - 0.2) < 0.04 and abs(z - 0.3) < 0.04) else elsewhere)
+    p.electron_distribution = Maxwellian(here(ne, 3.0 * ne + 1e18), here(te, 2.0 * te + 1.0), ConstantVector3D(Vector3D(0, 0, 0)), 9.1093837015e-31)
+    sp = Species(el, q_, Maxwellian(here(1e18, 3e18), here(float(rec["tsp"]), 2.0 * abs(float(rec["tsp"])) + 1.0), ConstantVector3D(Vector3D(*VEL)), el.atomic_weight * 1.66053906660e-27))
     p.composition = [sp]
     line = Line(el, q_, tr_)
     ad = AtomicData()
